@@ -280,3 +280,82 @@ def record_methods(ctx, consts_of, *modules) -> dict:
                     out[f"{ci.name}.{name}"] = (fi.node, consts_of(fi))
     return out
 
+
+def sample_evaluator(ctx, root: FuncInfo, extra_env: dict | None = None):
+    """(PathEval, environment of `root`) set up to follow `root` and the module-level functions it reaches: constants,
+    compiled patterns, NamedTuple classes with their class methods, and module-level tables that need those (records,
+    lambdas) evaluated with the evaluator itself"""
+    import re as _re
+    from ..concrete import PathEval, PState, _Unknown
+    extra_env = extra_env or {}
+
+    def consts_of(f_):
+        out_ = {}
+        for nm in {x.id for x in ast.walk(f_.node) if isinstance(x, ast.Name)}:
+            if nm in params_of(f_.node):
+                continue
+            v = try_const(ctx, f_, ast.Name(nm, ast.Load()), default=None)
+            if v is not None:
+                out_.setdefault(nm, v)
+        return out_
+    funcs = [root] + [ctx.cg.funcs[q] for q in ctx.cg.closure([root.fq]) if q in ctx.cg.funcs]
+    mods = {f.module.name: f.module for f in funcs}
+    calls = {}
+    for g in funcs:
+        if g.cls is None and "." not in g.qualname and g is not root:
+            calls[g.name] = (g.node, consts_of(g))
+    calls.update(record_methods(ctx, consts_of, *mods.values()))
+    pe = PathEval(calls)
+    pe.record_classes = record_classes(ctx, *mods.values())
+
+    def known(v_):
+        if isinstance(v_, _Unknown):
+            return False
+        if isinstance(v_, (tuple, list)):
+            return all(known(x_) for x_ in v_)
+        if isinstance(v_, dict):
+            return all(known(x_) for x_ in v_.values())
+        return True
+    root_env = consts_of(root)
+    for g in funcs:
+        env_g = root_env if g is root else calls.get(g.name, (None, None))[1]
+        if env_g is None:
+            continue
+        for k_, v_ in extra_env.items():
+            env_g.setdefault(k_, v_)
+        for nm in {x.id for x in ast.walk(g.node) if isinstance(x, ast.Name)} - set(env_g) - set(params_of(g.node)):
+            val = g.module.assigns.get(nm)
+            if val is None:
+                continue
+            from ..model import norm as _norm
+            if isinstance(val, ast.Call) and _norm(val.func) in ("re.compile", "compile") and val.args:
+                pat = try_const(ctx, g, val.args[0], default=None)
+                if isinstance(pat, str):
+                    try:
+                        env_g[nm] = _re.compile(pat)
+                    except _re.error:
+                        pass
+                continue
+            base = consts_of(g)
+            for nm2 in {x.id for x in ast.walk(val) if isinstance(x, ast.Name)}:
+                v2 = try_const(ctx, g, ast.Name(nm2, ast.Load()), default=None)
+                if v2 is not None:
+                    base.setdefault(nm2, v2)
+            base.update(extra_env)
+            v_ = pe.ev(val, PState(base))
+            if known(v_) and not pe.gaps:
+                env_g[nm] = v_
+            pe.gaps = []
+    return pe, root_env
+
+
+def bind_defaults(fnode: ast.FunctionDef, env: dict):
+    """bind every parameter of fnode that is not in env yet to its constant default (positional and keyword-only)"""
+    pos = fnode.args.posonlyargs + fnode.args.args
+    for a_, d_ in zip(pos[len(pos) - len(fnode.args.defaults):], fnode.args.defaults):
+        if a_.arg not in env and isinstance(d_, ast.Constant):
+            env[a_.arg] = d_.value
+    for a_, d_ in zip(fnode.args.kwonlyargs, fnode.args.kw_defaults):
+        if a_.arg not in env and isinstance(d_, ast.Constant):
+            env[a_.arg] = d_.value
+
